@@ -49,7 +49,7 @@ func (b *exampleBuilder) Build(node ischema.Node) ([]byte, error) {
 }
 
 func (b *exampleBuilder) buildExampleForObjectNode(node *ischema.ObjectNode) ([]byte, error) {
-	if node.Constraint(constraint.TypesListConstraintType) != nil {
+	if hasUserTypeReference(node) {
 		return nil, errs.ErrUserTypeFound.F()
 	}
 
@@ -108,6 +108,14 @@ func (b *exampleBuilder) buildObjectKey(k ischema.ObjectNodeKey) ([]byte, error)
 	return stdBytes.Trim(ex, `"`), nil
 }
 
+// hasUserTypeReference reports whether the types listed for the node (rules `type`
+// and `or`) name a user type. An `or` over built-in types only, e.g.
+// {} // {or: [{type: "object"}, {type: "string"}]}, is an ordinary example.
+func hasUserTypeReference(node ischema.Node) bool {
+	c, ok := node.Constraint(constraint.TypesListConstraintType).(*constraint.TypesList)
+	return ok && c != nil && c.HasUserTypes()
+}
+
 // jsonEscape returns s escaped as the inside of a JSON string literal (no quotes).
 func jsonEscape(s string) ([]byte, error) {
 	var buf stdBytes.Buffer
@@ -121,7 +129,7 @@ func jsonEscape(s string) ([]byte, error) {
 }
 
 func (b *exampleBuilder) buildExampleForArrayNode(node *ischema.ArrayNode) ([]byte, error) {
-	if node.Constraint(constraint.TypesListConstraintType) != nil {
+	if hasUserTypeReference(node) {
 		return nil, errs.ErrUserTypeFound.F()
 	}
 
